@@ -92,18 +92,29 @@ CLAIMS = {
         "design": "DESIGN.md 5.5",
     },
     "C06": {
-        "text": "CRC implementation and the TRANSMIT side only. The crc crate's table step equals the bit-wise CRC-16/MODBUS step "
-                "for all 2^24 (state, byte) pairs (covers every frame length by induction); rodbus's CRC constant, init value and "
-                "BOTH code paths (checksum used on transmit, digest/update/finalize used on receive) equal the fold of that step; "
-                "every RTU reply built by the C01 kernels and every RTU request built by the C03 encoders ends with that CRC, low "
-                "byte first; the 256-byte limit on emitted frames is decided by C03's limit queries. Thorough: generator-"
-                "polynomial lemma (1-bit, 2-bit within 256 bytes, bursts <= 16 bits are detectable by this CRC).",
-        "note": "NOT decided - measured, not assumed: the RECEIVE side. 'RtuParser::parse accepts iff length rule and CRC hold' and "
-                "'same result for every chunking' could not be decided: five variants (streams of 10, 8 and 5 bytes; symbolic and "
-                "concrete buffer offset; an 8-byte frame split at every point) all ended with the solver dying at 30 GB after "
-                "3-6 minutes, independent of input size. The harnesses are kept unregistered (zz06_*, ./check --dev zz06_). "
-                "Consequence: a change to the CRC comparison or to the length derivation inside RtuParser::parse is NOT detected "
-                "by this check (both seeded C06 mutations are missed). Serial driver outside.",
+        "text": "CRC implementation, TRANSMIT side, and the RECEIVE side at call-site-constant frame lengths. The crc crate's "
+                "table step equals the bit-wise CRC-16/MODBUS step for all 2^24 (state, byte) pairs (covers every frame length by "
+                "induction); rodbus's CRC constant, init value and BOTH code paths (checksum used on transmit, "
+                "digest/update/finalize used on receive) equal the fold of that step; every RTU reply built by the C01 kernels and "
+                "every RTU request built by the C03 encoders ends with that CRC, low byte first; the 256-byte limit on emitted "
+                "frames is decided by C03's limit queries. Receive side (real RtuParser::parse, recursion included, over a "
+                "260-byte buffer whose residue is arbitrary): a complete 8-byte request (function 6) is handed on iff BOTH CRC "
+                "bytes verify, with destination (0 = broadcast), PDU bytes and consumption exact, for every address, body, "
+                "trailer and decode level. Thorough adds: the same frame delivered as 1+7 bytes (never acted on while incomplete, at "
+                "most the address byte consumed), a 10-byte write-multiple-coils request delivered whole (all three parser "
+                "states in one call; address 0 stays broadcast), an exception reply in the response direction, unknown function "
+                "codes and the oversized-PDU refusal; and the generator-polynomial lemma (1-bit, 2-bit within 256 bytes, bursts <= 16 "
+                "bits are detectable by this CRC).",
+        "note": "The receive-side queries fix every LENGTH per call site (function code, byte count, delivered prefix); address, "
+                "data, CRC trailer and buffer residue are symbolic. Six earlier formulations with a symbolic delivered length "
+                "all died at 30-41 GB (kept unregistered, zz06_*): the early 'return Ok(None)' guards the state assignment, the "
+                "state discriminant becomes symbolic and the recursive parse() is unwound through all three arms. NOT decided: "
+                "frame lengths, byte counts and split points other than the listed ones (frames longer than 10 bytes; the 6+5 "
+                "split of a write-multiple request ran out of memory at 34 GB, so a byte count taken from stale buffer contents "
+                "- seeded change C06-2 - is still missed; read-reply, write-echo and inside-the-CRC splits were written but not "
+                "observed passing in time and are unregistered), buffer offsets other than 0 (accessor offset-independence is C05's c05_buffer_accessors), the "
+                "256-byte maximum on receive beyond the 'PDU > 253 is refused' exit. Each receive query costs 7-8 min and "
+                "10-25 GB, mostly CBMC's propositional conversion of the 253-byte frame and 260-byte buffer. Serial driver outside.",
         "design": "DESIGN.md 5.6",
     },
     "C07": {
@@ -188,8 +199,9 @@ CLAIMS = {
                 "unsupported function and an empty frame are answered iff addressed to the configured unit and nothing is written "
                 "otherwise; on RTU a broadcast read (valid or malformed) is ignored and nothing is transmitted. "
                 "Thorough adds a malformed request and two more unsupported function codes for every unit id.",
-        "note": "The glue harnesses construct the Broadcast destination themselves: that the RTU parser maps address 0 to Broadcast "
-                "is NOT decided (the receive-side parser harnesses are intractable, see C06). Function codes are fixed per query "
+        "note": "The glue harnesses construct the Broadcast destination themselves; that the RTU parser maps address 0 to Broadcast "
+                "(also through the intermediate variable-length state) is decided by C06's receive-side queries "
+                "(c06_rtu_recv_*, which C17's THOROUGH tier re-runs). Function codes are fixed per query "
                 "(write single register/coil, read holding registers, 0x2B as unsupported representative; full tables in C01). "
                 "Each glue query needs 10-36 GB and 5-16 minutes; they run at most 4 at a time, so the quick check takes ~16 min. "
                 "NOT decided: the broadcast-WRITE fan-out ('applied exactly once to every configured unit, never answered'). Its "
